@@ -805,6 +805,13 @@ def call_ext(E, st, mod, name, args, kwargs, node=None):
     if full == "re.match":
         pat = _const_str(args[0].t) if args[0].kind.tag == "str" else None
         if pat is None:
+            if args[0].kind.tag == "str" and args[1].kind.tag == "str":
+                # a pattern known only at run time: whether it matches is an uninterpreted predicate of (pattern, text);
+                # an invalid pattern (re.error) is outside the model
+                E.trusted.add("re.match with a run-time pattern: an uninterpreted predicate re_match(pattern, text); "
+                              "re.error for an invalid pattern is not modelled")
+                f = E.uf_decl("uf_re_match", z3.StringSort(), z3.StringSort(), z3.BoolSort())
+                return ok(st, V(BOOL, f(args[0].t, args[1].t), aux={"match": True}))
             raise Unsupported("re.match with a symbolic pattern")
         if args[1].kind.tag != "str":
             return [E.raise_(st, "TypeError", "expected string")]
